@@ -34,6 +34,27 @@ def run(ctx):
                             "Names.all_name_lints (fourteen name-scanning lints, modelled in full) vs the real lints through the framework")
     if not mon:
         common.report_disagreements(ctx, "names", fn, "Kernels.Names.all_name_lints (c17_name_lints_perm applies to the model only)", [])
+    # static (go/ast, regenerated): no loop over a SAN name list, or over the extension list, can leave with two different statuses
+    san_fields = {"DNSNames", "EmailAddresses", "URIs", "IPAddresses", "OtherNames", "DirectoryNames", "EDIPartyNames", "RegisteredIDs", "FailedToParseNames",
+                  "PermittedDNSNames", "ExcludedDNSNames"}
+    ext_allow = {"cabf_br/lint_aia_must_contain_permitted_access_method.go": "selects the one extension with the AIA OID",
+                 "cabf_br/lint_crlissuer_must_not_be_present_in_cdp.go": "selects the one extension with the CDP OID"}
+    loops = d["data"].get("multi_status_loops") or []
+    off = [l for l in loops if set(l["Fields"]) & san_fields or ("Extensions" in l["Fields"] and l["File"] not in ext_allow)]
+    import os
+    from common import cq_bytes, cq_list
+    gd = os.path.join(common.GEN, "C17")
+    with open(os.path.join(gd, "Obl_C17_loops.v"), "w") as f:
+        f.write("From ZL Require Import Base.Bytes.\nFrom Coq Require Import List.\nImport ListNotations.\n")
+        f.write("(* loops over a SAN name list or the extension list that can return two different statuses (go/ast facts, regenerated; reviewed OID-selecting loops excluded) *)\n")
+        f.write("Definition multi_status_loops : list bytes := %s.\n" % cq_list([cq_bytes("%s:%d %s" % (l["File"], l["Line"], "/".join(l["Statuses"]))) for l in off]))
+        f.write("Lemma no_multi_status_loop : match multi_status_loops with nil => true | _ => false end = true.\nProof. vm_compute. reflexivity. Qed.\n")
+    ok, outp = common.coqc(os.path.join(gd, "Obl_C17_loops.v"))
+    ctx.oblige("Obl_C17_loops: no Execute/CheckApplies loop over a SAN name list or the extension list returns two different statuses from inside the loop (%d multi-status loops elsewhere recorded)" % (len(loops) - len(off)), ok, outp[-800:])
+    for l in off:
+        ctx.violation("multi-status-loop:%s:%d" % (l["File"], l["Line"]), "the loop at %s:%d over %s can return %s from inside the loop: the verdict depends on which element comes first" % (
+            l["File"], l["Line"], "/".join(l["Fields"]), " or ".join(l["Statuses"])), {"theorem_or_correspondence": "Gen.Obl_C17_loops.no_multi_status_loop", "loop": l}, found_input=False)
+    ctx.notes["multi_status_loops_elsewhere"] = [l for l in loops if l not in off]
     st = d.get("stats", {})
     ctx.add_eval(st.get("san_permutations", 0) + st.get("extension_permutations", 0), distinct=st.get("san_permutations", 0), traces=st.get("san_permutations", 0) + st.get("extension_permutations", 0))
     ctx.cov["rule"] = ("generated certificates whose SAN holds 2-4 GeneralNames drawn from a pool of compliant / non-compliant / unparseable names of every type (dNSName, rfc822Name, URI, "
